@@ -351,6 +351,12 @@ def run_string_case(phase, earlier, eq_root):
             bad.append(("load after the failure",))
         if m1 is not None and m1.refs[0].target is not m2.refs[0].target and "lib.m" in before:
             bad.append(("library model loaded twice",))
+        # a further good model with the text of the earlier one: under the user's __eq__ it is EQUAL to a model of the repository, yet a model of its own
+        m3 = mm.model_from_str("def s2\nref r -> l1\n")
+        if m3 is m1 or m3.refs[0].target is None or getattr(m3.refs[0].target, "name", None) != "l1":
+            bad.append(("good load of a model equal to a cached one", repr(getattr(m3.refs[0], "target", None))[:60]))
+        if classes and any(k in classes[0].__dict__ for k in ("_tx_instrumented", "_tx_real_setattr")):
+            bad.append(("user class left instrumented after a good load",))
     except core.HarnessError:
         raise
     except Exception as e:
@@ -361,13 +367,59 @@ def run_string_case(phase, earlier, eq_root):
     return not bad, obs
 
 
+def run_equal_case(provider, second):
+    """no failure at all: a model that is EQUAL (user __eq__) to a model cached by the global repository is loaded from a string / another file;
+    it is a model of its own: resolved, initialised, and the user classes are left uninstrumented"""
+    from textx import metamodel_from_str
+    from textx.scoping import providers as P
+
+    d = os.path.join(core.rundir(), "c18e-%d" % os.getpid())
+    os.makedirs(d, exist_ok=True)
+    inits = []
+
+    class Model:
+        def __init__(self, **kw):
+            inits.append(id(self))
+            self.__dict__.update(kw)
+
+        def __eq__(self, other):
+            return isinstance(other, Model) and [x.name for x in self.defs] == [x.name for x in other.defs]
+
+        __hash__ = object.__hash__
+    mm = metamodel_from_str(mfiles.GRAMMAR, global_repository=True, classes=[Model])
+    mm.register_scope_providers({"*.*": getattr(P, provider)()})
+    text = "def s2\nref r -> s2\n"
+    for fn in ("good.m", "other.m"):
+        with open(os.path.join(d, fn), "w") as f:
+            f.write(text)
+    obs = {"family": "equal good model", "provider": provider, "second_load": second}
+    bad = []
+    try:
+        m1 = mm.model_from_file(os.path.join(d, "good.m"))
+        m2 = mm.model_from_str(text) if second == "string" else mm.model_from_file(os.path.join(d, "other.m"))
+        if m2 is m1:
+            bad.append(("the cached model was returned for another source",))
+        if getattr(m2.refs[0], "target", None) is not m2.defs[0]:
+            bad.append(("reference of the second model", repr(getattr(m2.refs[0], "target", None))[:60]))
+        if id(m2) not in inits:
+            bad.append(("root object of the second model was never initialised",))
+        if any(k in Model.__dict__ for k in ("_tx_instrumented", "_tx_real_setattr")) or Model.__dict__.get("_tx_obj_attrs"):
+            bad.append(("user class left instrumented / holding attributes after a good load",))
+    except Exception as e:
+        bad.append(("exception", "%s: %s" % (type(e).__name__, str(e).replace(d, "<dir>")[:120])))
+    obs["failures"] = bad[:3]
+    return not bad, obs
+
+
 def work_string(arg):
     u = Unit()
     for c in arg:
         with watchdog(30):
-            ok, obs = run_string_case(*c)
+            ok, obs = run_equal_case(*c[1:]) if c[0] == "equal" else run_string_case(*c)
         u.case(["strings"] + list(c), nontrivial=True, sample=obs)
         u.count("string family phase:%s -> %s" % (c[0], obs.get("error", "no error").split(":")[0]))
+        if c[0] == "equal":
+            c = tuple(c)
         if not ok:
             u.fail(["strings"] + list(c), {"strings": list(c)}, sig="strings %s | %s %s" % (obs["failures"][0][0], c[0], c[1]), what=str(obs)[:500])
     return u
@@ -420,6 +472,7 @@ def run(ctx):
               for prov in ("PlainNameGlobalRepo", "FQNGlobalRepo")]
     ctx.pmap(work_index, [icases[i:i + 4] for i in range(0, len(icases), 4)])
     scases = [(ph, earlier, eq) for ph in PHASES for earlier in (None, "string", "file") for eq in (False, True)]
+    scases += [("equal", prov, second) for prov in ("PlainNameImportURI", "FQNImportURI", "PlainNameGlobalRepo") for second in ("string", "file")]
     ctx.pmap(work_string, [scases[i:i + 4] for i in range(0, len(scases), 4)])
     lcases = [(ph, bf, ga, gl) for ph in PHASES for bf in ("f0.app", "f1.lib") for ga in (False, True) for gl in (False, True)]
     ctx.pmap(work_lang, [lcases[i:i + 4] for i in range(0, len(lcases), 4)])
@@ -438,6 +491,6 @@ def replay(p):
     if "languages" in p:
         return run_lang_case(*p["languages"])
     if "strings" in p:
-        return run_string_case(*p["strings"])
+        return run_equal_case(*p["strings"][1:]) if p["strings"][0] == "equal" else run_string_case(*p["strings"])
     g = tuple(tuple(x) for x in p["graph"])
     return run_case(g, p["bad_file"], p["phase"], p["grepo"], p["history"], p.get("provider", "plain"))
